@@ -5,3 +5,4 @@ import MsqProofs.Lemmas.LexLossless
 import MsqProofs.Props.C04
 import MsqProofs.Props.C02
 import MsqProofs.Props.C14
+import MsqProofs.Props.C20
